@@ -136,7 +136,7 @@ def b_pretty(v, *sep):
         if v != v.to_integral_value() or v.as_tuple().exponent != 0:
             raise Unspec('pretty non-integer')
         s = sep[0] if sep else ' '
-        digits = str(abs(v))
+        digits = str(v.copy_abs())          # copy_abs: abs() would round a > 28-digit integer to the context precision
         if len(digits) < 5:
             return str(v)
         groups = []
@@ -447,11 +447,11 @@ class Interp:
 
     def ev_Assign(self, n):
         v = self.ev(n[2])
-        self.scopes[-1][n[1]] = copy.deepcopy(v)
+        self.scopes[-1][n[1]] = guard(copy.deepcopy)(v)       # a value that cannot be copied is a Python-level failure
         return None
 
     def ev_Short(self, n):
-        v = copy.deepcopy(self.ev(n[3]))
+        v = guard(copy.deepcopy)(self.ev(n[3]))
         try:
             cur = self.lookup(n[1])
         except KeyError:
